@@ -1007,6 +1007,27 @@ def rule_R40_debug_assert_eq(text, log):
         out = out[:mm.start()] + new + pad + out[cl + 1:]
 
 
+def rule_R41_bool_then_some(text, log):
+    """`B.then_some(E)` -> `{ let vx_b = B; let vx_ts = E; if vx_b { Some(vx_ts) } else { None } }` (definition of bool::then_some:
+    receiver first, then the eagerly evaluated argument)"""
+    out = text
+    rx = re.compile(r'\.\s*then_some\s*\(')
+    while True:
+        mask = code_mask(out)
+        mm = next((m for m in rx.finditer(out) if mask[m.start()]), None)
+        if not mm:
+            return out
+        op = mm.end() - 1
+        cl = match_brace(out, mask, op)
+        arg = out[op + 1:cl].strip()
+        rs = _recv_start(out, mask, mm.start())
+        recv = norm_ws(out[rs:mm.start()])
+        new = '{ let vx_b = %s; let vx_ts = %s; if vx_b { Some(vx_ts) } else { None } }' % (re.sub(r'\s*\.\s*', '.', recv), arg)
+        pad = '\n' * max(0, out[rs:cl + 1].count('\n') - new.count('\n'))
+        log.append(('R41', norm_ws(out[rs:cl + 1])[:120], norm_ws(new)[:160]))
+        out = out[:rs] + new + pad + out[cl + 1:]
+
+
 def rule_R32_or_else(text, log):
     """`OPT.or_else(|| B)` -> `(match OPT { Some(vx_v) => Some(vx_v), None => B })` (definition of Option::or_else)"""
     out = text
@@ -1567,7 +1588,7 @@ class Unit(object):
         self.lost_aids = []
         self.gone_fns = []
         self.late_hints = False
-        self.rules = set(['R1', 'R2', 'ATTR', 'R4', 'R5', 'R6', 'R10', 'R11', 'R14', 'R15', 'R17', 'R22', 'R23', 'R25', 'R26', 'R27', 'R28', 'R29', 'R30', 'R33', 'R35', 'R36', 'R38', 'R39', 'R40'])
+        self.rules = set(['R1', 'R2', 'ATTR', 'R4', 'R5', 'R6', 'R10', 'R11', 'R14', 'R15', 'R17', 'R22', 'R23', 'R25', 'R26', 'R27', 'R28', 'R29', 'R30', 'R33', 'R35', 'R36', 'R38', 'R39', 'R40', 'R41'])
         self.unit_props = []
         self.lemmas = []
         self.tmpl_fns = []          # hand-written exec/proof fns in template (name, props)
@@ -1655,6 +1676,8 @@ class Unit(object):
                 text = rule_R36_range_for_each(text, log)
             if 'R40' in self.rules:
                 text = rule_R40_debug_assert_eq(text, log)
+            if 'R41' in self.rules:
+                text = rule_R41_bool_then_some(text, log)
             if 'R38' in self.rules:
                 text = rule_R38_bool_then(text, log)
             if 'R39' in self.rules:
@@ -2226,7 +2249,9 @@ def emit_fn(unit, loc, dlines, tmpl_where):
                     find_item(src, mask, path[:-1])
                     gone = not re.search(r'\bfn\s+%s\b' % re.escape(path[-1][3:].strip()), ''.join(c if mask[k] else ' ' for k, c in enumerate(src)))
                 except AnchorLost:
-                    gone = False
+                    # the enclosing impl is gone as well: deleted together with its function, provided no function of
+                    # this name is left anywhere in the file (otherwise the impl may merely have been rewritten: undecided)
+                    gone = not re.search(r'\bfn\s+%s\b' % re.escape(path[-1][3:].strip()), ''.join(c if mask[k] else ' ' for k, c in enumerate(src)))
             if not gone:
                 raise
             unit.gone_fns.append({'fn': ' :: '.join(path), 'file': rel})
